@@ -57,6 +57,9 @@ def reload(defn, xml: bytes):
 
 
 def obs_key(obs):
+    # the text of an error message is not part of the result (it may print the definition's numbers as the caller handed them over)
+    if obs and obs[0] == "raised":
+        return repr((obs[0], obs[1]) + tuple(obs[3:]))
     return repr(obs)
 
 
